@@ -84,6 +84,10 @@ def gen_loads(ctx):
         nslab = 1 + (ci + 1) % 4
         cat = cs.random_catalog(rng, nslab=nslab, max_halos=6 if quick else 9,
                                 empty_slab=(rng.randrange(nslab) if ci % 4 == 0 else None))
+        if ci % 3 != 2:
+            for sl in cat['slabs']:     # stored centres in box units, dyadic, the faces -1/2 and +1/2 included
+                sl['cols']['x_L2com'] = [[rng.choice([-0.5, 0.5, 0.5, 0.25, -0.25, 0.0, 0.4375, -0.46875, rng.randrange(-64, 65) / 128])
+                                          for _ in range(3)] for _ in range(sl['n'])]
         for li in range(7 if quick else 12):
             opt = opts[(ci + li) % len(opts)]
             cleaned = True if c01.OPTSETS[opt]['passthrough'] else (li + ci) % 3 != 0
@@ -103,11 +107,17 @@ def gen_loads(ctx):
                 if cleaned:
                     xf += ['N_mainprog', 'vcirc_max_L2com_mainprog', 'sigmav3d_L2com_mainprog', 'is_merged_to']
                 xf = rng.sample(xf, rng.randint(2, len(xf)))
+            if 'x_L2com' in cat['slabs'][0]['cols'] and not c01.OPTSETS[opt]['passthrough'] and li % 2 == 0:
+                # a filter that is a function of POSITION (stored coordinates include the box faces -1/2 and +1/2 exactly)
+                xf = sorted(set(xf) | {'x_L2com'})
+                ax, thr = rng.randrange(3), rng.choice([0.0, 0.0, 0.25, -0.5, 0.5])
+                sel = [i for k in order for i, x in zip(cat['slabs'][k]['cols']['id'], cat['slabs'][k]['cols']['x_L2com']) if x[ax] >= thr]
+                flt = ['xge', 'x_L2com', ax, thr * cat['box'], sel]
             main = c01.make_load(cat, opt, cleaned, ab, kind, order, flt, extra_fields=xf)
             loads.append(main)
             meta.append({'role': 'main'})
             j = len(loads) - 1
-            if flt is not None and (li % 2 == 0 or not quick):        # companion: the unfiltered load
+            if flt is not None and (li % 2 == 0 or not quick or flt[0] == 'xge'):        # companion: the unfiltered load
                 loads.append(c01.make_load(cat, opt, cleaned, ab, kind, order, None, extra_fields=xf))
                 meta.append({'role': 'unfiltered', 'of': j})
             if len(order) > 1 and (li % 3 == 1 or not quick):         # companions: each file on its own
@@ -202,6 +212,21 @@ def extra_checks(ctx, loads_meta):
                 for k in ld['order']:
                     s = ld['cat']['slabs'][k]
                     mask += c01._mask(ld['filter'], s['cols']['id'], s['ccols']['N_total'] if rename else s['cols']['N'])
+                if ld['filter'][0] == 'xge' and len(mask) == len(views[i]):
+                    # the same FUNCTION applied to the table the unfiltered load returns (its own column values)
+                    import numpy as np
+                    col = results[i]['value']['xfields'].index(ld['filter'][1])
+                    xs = [float(np.frombuffer(bytes.fromhex(r[col]), dtype=np.float32)[ld['filter'][2]]) for r in results[i]['value']['xrows']]
+                    own = [x >= ld['filter'][3] for x in xs]
+                    info['relations_checked']['position_filter_on_returned_table'] = info['relations_checked'].get('position_filter_on_returned_table', 0) + 1
+                    if own != mask:
+                        v = c01.violation(PID, ld, results[j], [
+                            'a filter on positions selects other rows when it is applied to the table the unfiltered load returns than '
+                            f'when it is passed as filter_func (returned {ld["filter"][1]}[{ld["filter"][2]}] = {xs[:8]}, threshold {ld["filter"][3]}; '
+                            'the filter was shown other values than the ones that are returned)'], exps[j])
+                        v['unfiltered_view'] = views[i][:6]
+                        cex.append(v)
+                        continue
                 want = [v for v, keep in zip(views[i], mask) if keep]
                 info['relations_checked']['filter_vs_mask'] += 1
                 if len(mask) != len(views[i]) or views[j] != want:
